@@ -25,13 +25,17 @@ contract(C + 'ContactlessFrontend.sense', 'C18', dict(self=sclf(), targets=Fixed
          ensures=[('post.first-found', 'result is None or (self.target is result and '
                                        'count(EVENTS, "mute") == 1 and EVENTS[0] == "mute")'),
                   ('post.field-off', 'implies(result is None, self.target is None and EVENTS[-1] == "mute")'),
-                  ('post.order', 'result is None or result.found_by == EVENTS[-1]')],
+                  ('post.order', 'result is None or result.found_by == EVENTS[-1]'),
+                  ('post.dep-asked', 'implies(getattr(targets[0], "atr_req", None) is not None and len(targets[0].atr_req) >= 16 and len(targets[0].atr_req) <= 64, EVENTS[1] == "sense_dep")')],
          raises={})
 contract(C + 'ContactlessFrontend.sense', 'C18', dict(self=sclf(), targets=Fixed([ANYT()])),
          name='C18/sense[1]', setup=reset_events,
          ensures=[('post.target', 'self.target is result'),
-                  ('post.field-off', 'implies(result is None, EVENTS[-1] == "mute")')],
-         raises={C + 'UnsupportedTargetError': [], 'ValueError': []})
+                  ('post.field-off', 'implies(result is None, EVENTS[-1] == "mute")'),
+                  ('post.dep-asked', 'implies(getattr(targets[0], "atr_req", None) is not None and len(targets[0].atr_req) >= 16 and len(targets[0].atr_req) <= 64, count(EVENTS, "sense_dep") >= 1)')],
+         # a target whose attributes are valid as documented (ATR_REQ of 16..64 octets) is handed to the driver;
+         # ValueError for it can only be the driver's own
+         raises={C + 'UnsupportedTargetError': [], 'ValueError': ['implies(getattr(targets[0], "atr_req", None) is not None and len(targets[0].atr_req) >= 16 and len(targets[0].atr_req) <= 64, count(EVENTS, "sense_dep") >= 1)']})
 contract(C + 'ContactlessFrontend.sense', 'C18',
          dict(self=sclf(), targets=Fixed([OneOf(Const(None), Const('106A'), Const(b'106A'))])),
          name='C18/sense.bad-argument', setup=reset_events, ensures=[('post', 'False')],
